@@ -11,7 +11,7 @@
   Every equation is a linear form (lhs − rhs) in the unknowns (node voltages resp. mesh
   currents) with coefficients in the carrier `K`, i.e. the printed equation at a sample point.
 
-  Each generator has a flag `patched`.  `patched = false` mirrors the code as it is in /repo
+  Each generator has a flag per proposed patch (`patched` for nodal; `pe`, `pi` for mesh).  `false` mirrors the code as it is in /repo
   (findings F13, C15-c, C15-b, C15-d: constants of a branch relation -- source currents, initial
   conditions -- are not re-oriented with the component, parallel components are identified by
   node pair).  `patched = true` mirrors the code after the minimal patches proposed in DESIGN §4;
@@ -244,8 +244,11 @@ def accCoeffs (acc : List (Nat × Bool)) : List (Nat × K) :=
 
 def scaleCoeffs (z : K) (l : List (Nat × K)) : List (Nat × K) := l.map (fun p => (p.1, z * p.2))
 
-/-- contribution of the pair (a, b) of loop number `m` to its KVL sum (`_process_loop` body) -/
-def meshTerm (patched : Bool) (kind : Kind) (s : K) (g : List (Edge K)) (loops : List (List GNode))
+/-- contribution of the pair (a, b) of loop number `m` to its KVL sum (`_process_loop` body).
+    Two independent switches (one per proposed patch):
+    `pe` -- components are identified by their graph edge (patch for C15-c), else by node names;
+    `pi` -- `voltage_equation(−current)` (patch for C15-d), else `−voltage_equation(current)`. -/
+def meshTerm (pe pi : Bool) (kind : Kind) (s : K) (g : List (Edge K)) (loops : List (List GNode))
     (ab : GNode × GNode) : Option (MeshForm K) :=
   match component g ab.1 ab.2 with
   | none => some ⟨[], 0⟩                                   -- wire: skipped
@@ -258,26 +261,26 @@ def meshTerm (patched : Bool) (kind : Kind) (s : K) (g : List (Edge K)) (loops :
         let v : MeshForm K :=
           if isV c then ⟨[], v0⟩
           else
-            let cur : List (Nat × K) := accCoeffs (if patched then accEdge g loops idx n0 else accNames loops n0 n1)
-            if patched then ⟨scaleCoeffs (-z) cur, v0⟩          -- voltage_equation(−current)
+            let cur : List (Nat × K) := accCoeffs (if pe then accEdge g loops idx n0 else accNames loops n0 n1)
+            if pi then ⟨scaleCoeffs (-z) cur, v0⟩               -- voltage_equation(−current)
             else ⟨scaleCoeffs (-z) cur, -v0⟩                    -- −voltage_equation(current)
-        let rev : Bool := if patched then ab.1 == .real n0 else (ab.1 == .real n0 && ab.2 == .real n1)
+        let rev : Bool := if pe then ab.1 == .real n0 else (ab.1 == .real n0 && ab.2 == .real n1)
         some (if rev then ⟨scaleCoeffs (-1) v.coeffs, -v.const⟩ else v)
     | _, _ => none
 
 def MeshForm.add (f g : MeshForm K) : MeshForm K := ⟨f.coeffs ++ g.coeffs, f.const + g.const⟩
 
 /-- the mesh equation of one loop -/
-def meshEq (patched : Bool) (kind : Kind) (s : K) (g : List (Edge K)) (loops : List (List GNode))
+def meshEq (pe pi : Bool) (kind : Kind) (s : K) (g : List (Edge K)) (loops : List (List GNode))
     (loop : List GNode) : Option (MeshForm K) :=
   (loopPairs loop).foldr (fun ab acc =>
-    match meshTerm patched kind s g loops ab, acc with
+    match meshTerm pe pi kind s g loops ab, acc with
     | some t, some r => some (t.add r)
     | _, _ => none) (some ⟨[], 0⟩)
 
-def meshEqs (patched : Bool) (kind : Kind) (s : K) (cs : List (Cpt K)) (loops : List (List GNode)) :
+def meshEqs (pe pi : Bool) (kind : Kind) (s : K) (cs : List (Cpt K)) (loops : List (List GNode)) :
     Option (List (MeshForm K)) :=
-  loops.mapM (meshEq patched kind s (buildGraph cs) loops)
+  loops.mapM (meshEq pe pi kind s (buildGraph cs) loops)
 
 /-- decidable vetting of a loop handed in by networkx: at least three distinct graph nodes, every
     consecutive pair joined by an edge of the graph, no edge used twice -/
